@@ -16,3 +16,5 @@ func simProcessSigPool(h *Hashgraph) (bool, error) { return false, nil }
 func simUpdateAncestors(h *Hashgraph, event *Event) (bool, error) { return false, nil }
 
 func simStorePoint(s *BadgerStore, kind, phase string) error { return nil }
+
+func simResetStore(s *InmemStore, frame *Frame) (bool, error) { return false, nil }
